@@ -278,7 +278,7 @@ def exSubsB : List SSub := [(0, [(0, 0, 255), (1, 515, 0), (2, 7, 3)]), (1, [(1,
 example : SubsOk 1 2 1 exSubsB := by unfold SubsOk exSubsB RowOk; decide
 example : streamTableOf exSubsB = [(1, .normal 600 1), (2, .compressed 7 3)] := by decide
 
-/-! ### the deviation: rows of an undefined type (finding F-C02-b) -/
+/-! ### rows of an undefined type (former finding F-C02-b) -/
 
 /-- `W [1 1 1]`, `Index [0 2]`, rows (3, 0, 0) and (1, 5, 0): the first row has an undefined
 type and denotes the null object, the second says object 1 is at offset 5. -/
@@ -286,13 +286,10 @@ def exSubsC : List SSub := [(0, [(3, 0, 0), (1, 5, 0)])]
 example : encodeSubs 1 1 1 exSubsC = [3, 0, 0, 1, 5, 0] := by decide
 example : streamTableOf exSubsC = [(1, .normal 5 0)] := by decide
 
-/-- lopdf (as modelled) reads only the type byte of the undefined-type row, so the next "row"
-starts one field too early: it is read as a free entry and object 1 is LOST. -/
-theorem unknownType_desync :
-    (decodeXrefStream (xrefDict 2 1 1 1 exSubsC) (encodeSubs 1 1 1 exSubsC)).map (·.1) = .ok [] ∧
-    streamTableOf exSubsC ≠ [] := by
-  constructor
-  · decide
-  · decide
+/-- the former counter-witness of finding F-C02-b (repaired by lopdf commit e3a88e7): the row of
+an undefined type is skipped as a whole and object 1 is found. -/
+theorem unknownType_skipped :
+    (decodeXrefStream (xrefDict 2 1 1 1 exSubsC) (encodeSubs 1 1 1 exSubsC)).map (·.1) = .ok (streamTableOf exSubsC) := by
+  decide
 
 end Lopdf.Grammar
